@@ -13,7 +13,7 @@ From Clemens Require Import Rules.Abs Rules.Fide.
 From Clemens.C01Att Require Import FideFacts.
 From Clemens.C03Recon Require Import FideText Recon.
 From ClemensGen Require Import GoConsts.
-From WipEngine Require Import EngBase EngDispatch EngState EngSearch EngE2E EngText EngRank.
+From Clemens.EngineE2E Require Import EngBase EngDispatch EngState EngSearch EngE2E EngText EngRank.
 Import ListNotations.
 Open Scope list_scope.
 Open Scope string_scope.
